@@ -543,8 +543,15 @@ where
 			change, num_change_outputs
 		);
 
+		// every change output must carry a non-zero share of the change
+		if num_change_outputs == 0 || (change as u128) < (num_change_outputs as u128) {
+			return Err(Error::GenericError(format!(
+				"Cannot split change of {} into {} change output(s)",
+				change, num_change_outputs
+			)));
+		}
 		let part_change = change / num_change_outputs as u64;
-		let remainder_change = change % part_change;
+		let remainder_change = change % num_change_outputs as u64;
 
 		for x in 0..num_change_outputs {
 			// n-1 equal change_outputs and a final one accounting for any remainder
